@@ -145,7 +145,8 @@ def main():
             'IA_64', 'SPARC', 'ARC', 'AVR', 'PPC', 'PPC64', 'S390', 'M68K', 'NIOS2', 'XTENSA', 'LOONGARCH', 'AMDGPU',
             'HP', 'C6000', 'TIC6X', 'SH', 'IA64', 'VE', 'LANAI', 'BPF', 'CUDA', 'MMA']
     fam = {}
-    for pfx in ('SHT', 'PT', 'DT', 'EM', 'ET', 'ELFOSABI', 'STT', 'STB', 'STV', 'SHN', 'ELFCOMPRESS', 'EV', 'ELFCLASS', 'ELFDATA'):
+    for pfx in ('SHT', 'PT', 'DT', 'EM', 'ET', 'ELFOSABI', 'STT', 'STB', 'STV', 'SHN', 'ELFCOMPRESS', 'EV', 'ELFCLASS', 'ELFDATA',
+                'DW_TAG', 'DW_AT', 'DW_FORM', 'DW_OP', 'DW_CFA', 'DW_LNS', 'DW_LNE', 'DW_LANG', 'DW_ATE', 'DW_UT', 'DW_LLE', 'DW_RLE', 'DW_LNCT'):
         for n in names:
             if not (n.startswith(pfx + '_') or (pfx in ('ELFCLASS', 'ELFDATA') and n.startswith(pfx))):
                 continue
